@@ -160,7 +160,7 @@ class Checkers(object):
                 n += 1
                 if '(self.interval - %s)' % EL not in e:
                     return False, 'a subtraction other than interval - elapsed: %s' % e
-                ok = any(p is True and re.match(r'^\(\(%s \+ .+\) < self\.interval\)$' % re.escape(EL), s_) for s_, p in x.conds)
+                ok = any(p is True and (re.match(r'^\(\(%s \+ .+\) < self\.interval\)$' % re.escape(EL), s_) or re.match(r'^\(\(.+ \+ %s\) < self\.interval\)$' % re.escape(EL), s_)) for s_, p in x.conds)
                 if not ok:
                     return False, 'subtraction not on the false edge of `interval <= elapsed + _`: %s' % x.cond_strs()
         if n == 0:
